@@ -39,8 +39,19 @@ for pid in sys.argv[1:]:
         nq = sum(1 for c in cmds if c == '(check-sat)')
         if nq == 0 or nq != len(ref):
             continue
-        if entry['queries_compared'] + nq > MAXQ:
+        room = MAXQ - entry['queries_compared']
+        if room <= 0:
             break
+        if nq > room:
+            # replay only the first `room` queries of this transcript
+            k, cut = 0, len(cmds)
+            for i, c in enumerate(cmds):
+                if c == '(check-sat)':
+                    k += 1
+                    if k == room:
+                        cut = i + 1
+                        break
+            cmds, ref, nq = cmds[:cut], ref[:room], room
         text = '\n'.join(cmds) + '\n'
         entry['transcripts'] += 1
         for name, cmd, pre in (('z3_new', ['z3-new', '-in', '-t:20000'], ''), ('cvc5', ['cvc5', '--incremental', '--lang=smt2', '--tlimit-per=20000'], '(set-logic ALL)\n')):
